@@ -30,6 +30,9 @@ LAST_EXTRA = {
     "idx-auto": (" LDA ,X+\n", "const"), "idx-ofs16": (" LDD 300,Y\n", "const"), "direct": (" STA <$20\n", "const"), "inh": (" RTS\n", "const"),
     "imm16": (" LDX #$1234\n", "const"), "fcb": (" FCB 1,2\n", "const"), "fcc": (" FCC /AB/\n", "const"), "rmb": (" RMB 5\n", "const"),
     "pshs": (" PSHS A,B\n", "const"), "tfr": (" TFR X,Y\n", "const"),
+    # accumulator offsets: the offset field reads like a symbol name
+    "idx-acc-b": (" LDA B,X\n", "const"), "idx-acc-d": (" LEAX D,Y\n", "const"), "idx-acc-a": (" STA A,U\n", "const"),
+    "idx-acc-ind": (" LDD [B,S]\n", "const"), "exg": (" EXG A,B\n", "const"),
 }
 
 
@@ -53,7 +56,7 @@ class Meta:
         for k in list(RELOC) + list(LAST_EXTRA):
             for tgt in ("before", "self"):
                 out.append({"id": "suffix-last/%s/%s" % (k, tgt), "k": "suffix_last", "stmt": k, "tgt": tgt,
-                            "bounded": "base program ending in %s (target %s), 5 suffixes" % (k, tgt)})
+                            "bounded": "base program ending in %s (target %s), 9 suffixes" % (k, tgt)})
         return out
 
     def run(self, env, cell):
@@ -222,7 +225,10 @@ class Meta:
             env.ensure("C18:suffix-changes-nothing", True, ("C18",))
             return
         n = len(base.stmts)
-        suffixes = [[" RTS\n"], [" NOP\n", " END START\n"], ["ZZ8 FDB $1234\n"], [" RMB 300\n", "ZZ7 JMP ZZ7\n"], [" ORG $5000\n", " NOP\n"]]
+        suffixes = [[" RTS\n"], [" NOP\n", " END START\n"], ["ZZ8 FDB $1234\n"], [" RMB 300\n", "ZZ7 JMP ZZ7\n"], [" ORG $5000\n", " NOP\n"],
+                    # appended definitions of symbols whose names are register names: the existing statements do not refer to them
+                    ["B EQU 5\n", "D EQU 6\n", "A EQU 3\n"], ["X EQU 5\n", "Y EQU 6\n", "U EQU 2\n", "S EQU 1\n", "PC EQU 7\n", "PCR EQU 9\n"],
+                    ["A NOP\n", "B NOP\n", "D RTS\n"], ["X NOP\n", "DP NOP\n", "CC RTS\n"]]
         for k, sfx in enumerate(suffixes):
             r = assemble(env, lines + sfx)
             if r.status != "ok":
